@@ -112,12 +112,54 @@ def sensitivity(args):
     sys.exit(0 if det == len(results) else 1)
 
 
+def shuttle(args):
+    """Sensitivity of the thread-schedule engine: a schedule-dependent bug seeded into the vendored
+    BGZF worker pool (blocks taken in completion order) must be found, and the persisted schedule
+    must replay."""
+    tmp = f"/tmp/verif-selftest-shuttle-{os.getpid()}"
+    shutil.rmtree(tmp, ignore_errors=True)
+    os.makedirs(tmp)
+    try:
+        shutil.copytree(os.path.join(ROOT, "simsh"), os.path.join(tmp, "simsh"))
+        shutil.copytree(os.path.join(ROOT, "vendor"), os.path.join(tmp, "vendor"))
+        shutil.copytree(os.path.join(ROOT, "sim", "src"), os.path.join(tmp, "sim", "src"))
+        r = run(["git", "apply", "--directory", tmp.lstrip("/"), os.path.join(ROOT, "mutants", "vendor_bgzf_blocks_out_of_order.patch")], cwd="/")
+        if r.returncode:
+            r = run(["patch", "-p1", "-d", tmp, "-i", os.path.join(ROOT, "mutants", "vendor_bgzf_blocks_out_of_order.patch")])
+        if r.returncode:
+            print("harness error: vendor patch does not apply:", r.stderr[-300:])
+            sys.exit(2)
+        env = {"CARGO_TARGET_DIR": os.path.join(tmp, "target"), "CARGO_NET_OFFLINE": "true"}
+        b = run(["cargo", "build", "--release", "--offline", "-q"], env=env, cwd=os.path.join(tmp, "simsh"))
+        if b.returncode:
+            print("harness error: build failed:", b.stderr[-600:])
+            sys.exit(2)
+        out = os.path.join(tmp, "out")
+        os.makedirs(out)
+        env2 = {"VERIF_EVIDENCE_DIR": out, "VERIF_REPLAY_DIR": out, "VERIF_SHUTTLE_CASES": "64"}
+        exe = os.path.join(tmp, "target", "release", "simsh")
+        r = run([exe, "check", "quick"], env=env2)
+        viol = [l for l in r.stdout.splitlines() if l.startswith("VIOLATION")]
+        ok = r.returncode == 1 and bool(viol)
+        rep = False
+        if ok:
+            path = viol[0].split("replay=")[1].strip()
+            outs = [run([exe, "replay", path], env=env2).stdout.splitlines()[:2] for _ in range(3)]
+            rep = all(o and o[0].startswith("REPRODUCED") for o in outs) and outs[0] == outs[1] == outs[2]
+        print(f"vendor_bgzf_blocks_out_of_order [C12, shuttle engine]: {'DETECTED' if ok and rep else 'MISSED' if not ok else 'DETECTED-BUT-REPLAY-FAILED'}; {len(viol)} failing workloads reported; replay reproduced identically 3 times: {rep}")
+        sys.exit(0 if ok and rep else 1)
+    finally:
+        shutil.rmtree(tmp, ignore_errors=True)
+
+
 if __name__ == "__main__":
     mode = sys.argv[1] if len(sys.argv) > 1 else "determinism"
     if mode == "determinism":
         determinism(sys.argv[2:])
     elif mode == "sensitivity":
         sensitivity(sys.argv[2:])
+    elif mode == "shuttle":
+        shuttle(sys.argv[2:])
     else:
         print(__doc__)
         sys.exit(2)
